@@ -21,11 +21,12 @@ def observe(tr):
     return evs, tr.sim.client_bytes()
 
 
-def run_stream(reply, data, seg, deflate, reactions=None):
+def run_stream(reply, data, seg, deflate, reactions=None, tls=None):
     scn = build.scenario(
         [["wait_request"], ["stream", [["reply", reply], ["bytes", data]], seg, 0.0], ["eof", 0.0]],
         ws_opts={"compress": True} if deflate else None, reactions=reactions,
-        connect_opts={"ping_rate": 0})
+        connect_opts={"ping_rate": 0}, url="wss://example.test/" if tls else build.URL,
+        attempt_extra={"record": tls["record"], "tls_eager": bool(tls.get("eager"))} if tls else None)
     return simnet.run_scenario(scn)
 
 
@@ -169,8 +170,12 @@ class C02(Prop):
                 st.just(["send_text", "reply-€"]), st.just(["send_binary", "00ff"]),
                 st.just(["ping", "70"]), st.just(["close", 1000, "bye"])), min_size=1, max_size=2),
         }), max_size=2)
-        return st.tuples(st.one_of(conforming, conforming, violating, violating, raw, bigreply), edits, gen.segmentation(), react).map(
-            lambda t: dict(t[0], edits=t[1] if t[0]["src"] in ("conforming", "violating") else [], seg=t[2], reactions=t[3]))
+        tls = st.one_of(st.none(), st.none(), st.fixed_dictionaries({
+            "record": st.sampled_from([1, 5, 100, 1024, 16384]), "eager": st.booleans()}))
+        return st.tuples(st.one_of(conforming, conforming, violating, violating, raw, bigreply), edits, gen.segmentation(),
+                         react, tls).map(
+            lambda t: dict(t[0], edits=t[1] if t[0]["src"] in ("conforming", "violating") else [], seg=t[2], reactions=t[3],
+                           tls=t[4]))
 
     def stream_of(self, case):
         deflate = case.get("deflate", False)
@@ -250,8 +255,15 @@ class C02(Prop):
             inside.add("cut_in_frames")
         labels |= inside
         nontrivial = len(chunks) > 1 and bool(inside)
-        ref = run_stream(reply, data, "whole", deflate, reactions)
-        alt = run_stream(reply, data, seg, deflate, reactions)
+        tls = case.get("tls")
+        if tls:
+            # reference: one huge record per arrival, whole reads; alternative: reads are additionally cut
+            # at (small) record boundaries and sized by pending()
+            labels.add("tls")
+            if total // max(1, tls["record"]) > 4000:
+                tls = dict(tls, record=total // 4000 + 1)
+        ref = run_stream(reply, data, "whole", deflate, reactions, tls={"record": 1 << 20} if tls else None)
+        alt = run_stream(reply, data, seg, deflate, reactions, tls=tls)
         for tr, which in ((ref, "whole"), (alt, "segmented")):
             if tr.hang:
                 return failed("hang", "%s run: %s" % (which, tr.hang), labels, nontrivial)
